@@ -114,9 +114,13 @@ func (ex *Exec) contractEnv(st, old *State, fc *FuncContract, sig *types.Signatu
 		if i < len(ptypes) {
 			t = ptypes[i]
 		}
-		if t == nil {
-			if _, ok := args[i].(IfaceV); ok && fc.Recv != "" && i == 0 {
-				t = ex.ifaceTypeOf(fc)
+		if t == nil && fc.Recv != "" && i == 0 {
+			if nt := ex.ifaceTypeOf(fc); nt != nil {
+				if _, ok := args[i].(IfaceV); ok {
+					t = nt
+				} else if kindOf(nt) == KStruct {
+					t = types.NewPointer(nt)
+				}
 			}
 		}
 		v := args[i]
@@ -654,6 +658,20 @@ func (ex *Exec) Verify() {
 		}
 		renv.st = st
 		ex.bindResults(&renv, fc, fn.Signature, res)
+		for _, gs := range fc.GhostSets {
+			locs, err := renv.modLocs(gs.LHS)
+			if err != nil || len(locs) != 1 || locs[0].kind != LHeap1 {
+				ex.errs = append(ex.errs, fmt.Sprintf("contract-binding: %s ghostset %s: target must be one ghost field (%v)", fc.Key, gs.Src, err))
+				continue
+			}
+			v, err := renv.evalTerm(gs.RHS)
+			if err != nil {
+				ex.errs = append(ex.errs, fmt.Sprintf("contract-binding: %s ghostset %s: %v", fc.Key, gs.Src, err))
+				continue
+			}
+			h := ex.heap(st, locs[0].heap, locs[0].sort)
+			st.Heaps[locs[0].heap] = Store(h, locs[0].ref, v)
+		}
 		for _, c := range fc.Ensures {
 			if c.Bounded {
 				continue // decided by the bounded stand-in attached to the contract
